@@ -168,25 +168,18 @@ Section Glue.
         | MFUEL => RunFuel
         | MOK false m => finish (ml_core m) (byte_count (ml_core m))
         | MOK true m =>
-          (* final flush of the delayed match; its boolean result is discarded (keepgoing = true) *)
+          (* final flush of the delayed match: keepgoing = sink_context(..)? && sink_matched(..)? *)
           let flushed : outcome :=
             match ml_last m with
             | None => OK true (ml_core m)
             | Some (pls, ple) =>
-              match ml_sink_context (ml_core m) s pls with
-              | OK true c =>
-                match ml_sink_matched c s pls ple with
-                | OK _ c => OK true c
-                | o => o
-                end
-              | OK false c => OK true c
-              | o => o
-              end
+              andthen (ml_sink_context (ml_core m) s pls) (fun c => ml_sink_matched c s pls ple)
             end in
           match flushed with
           | ERR c => RunErr (rev (log c))
           | FUEL => RunFuel
-          | OK _ c =>
+          | OK false c => finish c (byte_count c)
+          | OK true c =>
             let tail :=
               if c_passthru cfg then other_context_by_line cfg reply_of true c s (length s)
               else after_context_by_line cfg reply_of true c s (length s) in
